@@ -509,7 +509,7 @@ class Unit:
                         pos += mc.end()
                     continue
                 eq = hm.index('=')
-                pat = head[:eq].strip()
+                pat = re.sub(r'//[^\n]*', '', head[:eq]).strip()
                 fut = head[eq + 1:].strip()
                 cond = None
                 parts = _split_top(fut, mask(fut), ', if ')
